@@ -660,7 +660,10 @@ def run(ctx):
             new = {k: x for k, x in after.items() if k not in before}
             ok = len(new) == len(exp_runs) == len(merged)
             for a, b, members in exp_runs:
-                cand = [k for k, x in new.items() if (x["start"], x["end"]) == (a, b)]
+                # the stored feature of this run: same class (seqid, featuretype, strand) as its members, same extent
+                m0 = before[members[0]]
+                cand = [k for k, x in new.items() if (x["start"], x["end"]) == (a, b) and
+                        (x["seqid"], x["featuretype"], x["strand"]) == (m0["seqid"], m0["featuretype"], m0["strand"])]
                 if not cand:
                     ok = False
                     continue
@@ -725,7 +728,9 @@ def run(ctx):
             new = {k: x for k, x in after.items() if k not in before}
             ok = len(new) == len(exp_runs)
             for a, b, members in exp_runs:
-                cand = [k for k, x in new.items() if (x["start"], x["end"]) == (a, b) and x["featuretype"] == before[members[0]]["featuretype"]]
+                m0 = before[members[0]]
+                cand = [k for k, x in new.items() if (x["start"], x["end"]) == (a, b) and
+                        (x["seqid"], x["featuretype"], x["strand"]) == (m0["seqid"], m0["featuretype"], m0["strand"])]
                 if not cand:
                     ok = False
                     continue
